@@ -277,21 +277,34 @@ class Repo:
                         mentioned[q] = mentioned.get(q, 0) + 1
                     resolved_elsewhere.add(id(c.func))
         by_name = {}
+        cfg_names = {}
+        plain_names = {}
         for m in self.modules.values():
             for n in ast.walk(m.tree):
                 if id(n) in resolved_elsewhere:
                     continue
                 if isinstance(n, ast.Attribute):
+                    rv = n.value
+                    if (isinstance(rv, ast.Name) and rv.id == "cfg") or (isinstance(rv, ast.Attribute) and rv.attr == "cfg"):
+                        # a setting read off the configuration object (`self.cfg.keepalive`): refers to a method only
+                        # if that method belongs to Config
+                        cfg_names[n.attr] = cfg_names.get(n.attr, 0) + 1
+                        continue
                     by_name[n.attr] = by_name.get(n.attr, 0) + 1
                 elif isinstance(n, ast.Name):
-                    by_name[n.id] = by_name.get(n.id, 0) + 1
+                    plain_names[n.id] = plain_names.get(n.id, 0) + 1     # a bare name never denotes a method
                 elif isinstance(n, ast.alias):
                     by_name[n.name] = by_name.get(n.name, 0) + 1
                 elif isinstance(n, ast.Constant) and isinstance(n.value, str) and n.value.isidentifier():
-                    by_name[n.value] = by_name.get(n.value, 0) + 1      # getattr(self, "name")
+                    if m.name == "gunicorn.config":
+                        cfg_names[n.value] = cfg_names.get(n.value, 0) + 1      # setting names (`name = "keepalive"`)
+                    else:
+                        by_name[n.value] = by_name.get(n.value, 0) + 1      # getattr(self, "name")
         for q in cands:
             name = q.rsplit(".", 1)[-1]
-            if not mentioned.get(q) and not by_name.get(name) and q in self._funcs:
+            on_config = q.startswith("gunicorn.config.")
+            is_method = q in self._funcs and self._funcs[q].cls is not None
+            if not mentioned.get(q) and not by_name.get(name) and not (on_config and cfg_names.get(name)) and not (not is_method and plain_names.get(name)) and q in self._funcs:
                 self.absorbed.add(q)
         # an absorbed helper is analysed through its callers only: drop it from every index
         for q in self.absorbed:
